@@ -4,6 +4,7 @@ worktree (nothing from /verif) and looks for inputs on which the pinned tool vio
   audit_prompt.py C07 > /var/tmp/seeds/a_C07.txt   (creates the worktree /var/tmp/seeds/au_C07)"""
 import json, sys, subprocess, os
 pid = sys.argv[1]
+round2 = len(sys.argv) > 2 and sys.argv[2] == 'round2'
 p = [json.loads(l) for l in open('/verif/properties.jsonl') if json.loads(l)['id'] == pid][0]
 d = '/var/tmp/seeds/au_%s' % pid
 if not os.path.exists(d):
@@ -23,3 +24,6 @@ Rules:
  - Minimise each failing input.
 
 Deliver in {d}/_audit_out/: one directory per finding (f1, f2, ...) containing the minimal input file(s), a `run.sh` (takes the repository root as $1, builds with --offline if needed, exits 0 iff the property HOLDS on the input — so it exits non-zero on the pinned tree for a genuine finding), and `finding.json`: {{"property": "{pid}", "summary": "...", "input": "...", "observed": "...", "expected": "...", "why_genuine": "...", "code_location": "file:line and the reasoning flaw"}}. Also write {d}/_audit_out/hypotheses.md listing every hypothesis tried and its outcome. When finished remove {d}/target if it is larger than 3 GB. Reply with a short summary of the findings (or say that none was found) and the list of hypotheses tried.""")
+if round2:
+    print("""
+SECOND ROUND. Earlier audits of this tool already led to repairs: `git log --grep '^fix:' --format='%h %s'` in your worktree lists them (read the commit messages and diffs of those that touch the code this property is anchored in). Do NOT re-report a defect that one of these commits repaired. Look for DIFFERENT mechanisms: language features and usage the earlier fixes did not touch, the interplay of the repairs with the rest of the code, and regressions the repairs themselves may have introduced (a regression is a genuine violation). Spend your effort where the implementation's reasoning is subtle, and prefer fewer, well-understood findings over many shallow ones.""")
